@@ -35,6 +35,20 @@
  *   LOGLOC!<s>,<d>,<p>,<i> the call left entries on the thread's log location stack (schema nodes, data nodes, paths,
  *           inputs); they point into trees / contexts that can be freed, the next message would walk them
  * "-" = command skipped (empty slot / arguments the driver refuses, see the comments), "?" = malformed command.
+ *
+ * Commands (N = node "<slot>.<i>", P = N or "~", S/D/T/F = slot number, mod = a0|b0|t0|a1|...|y0|"~", ctx = 0|1|"~"):
+ *   term P mod name val opts D | inner P mod name output D | list P mod name k1 k2 opts D | list2 P mod name keys opts D
+ *   any P mod name s|x|j|t val|srcslot opts D   (opts 0x100 = LYD_NEW_ANY_USE_VALUE: value consumed on success only)
+ *   opaq|opaq2 P ctx name val prefix module D | meta N ctx mod name val opts | attr N module name val
+ *   path|path1 N ctx path val opts             (lyd_new_path2 / lyd_new_path; empty slot: parent NULL, tree -> slot)
+ *   ins c|s|b|a TGT SRC | unlink N D | free S | freen N | freesib N | chg N val | chgmeta N j val
+ *   dup N P opts D s|b ctx | merge T S opts t|s | diff A B opts D | apply T F | rev F D | dmerge F1 F2 opts
+ *   parse ctx fmt popts vopts data D | parsep N fmt popts vopts data | parseop ctx fmt r|n|y data D [N]
+ *   val S ctx opts withdiff D | valmod S mod opts withdiff D | valop N S|~ r|n|y withdiff D | impl S ctx opts withdiff D
+ *   xfind N expr | xeval N expr | print N fmt opts | lys ctx yangtext
+ * The driver refuses (prints "-") calls whose arguments the API forbids in a way it does not check itself (asserts /
+ * undefined behaviour instead of an error): see the SKIP() comments; each of them is a place where libyang trusts the
+ * caller.
  */
 #include "common.h"
 
